@@ -197,8 +197,9 @@ class CompoundQuery(qcore.Query):
     def simplify(self, ixreader):
         subs = self.subqueries
         if subs:
-            q = self.__class__([subq.simplify(ixreader) for subq in subs],
-                               boost=self.boost).normalize()
+            # apply() knows how to rebuild every kind of compound query
+            # (binary queries do not take a list of sub-queries and a boost)
+            q = self.apply(lambda subq: subq.simplify(ixreader)).normalize()
         else:
             q = qcore.NullQuery
         return q
